@@ -9,7 +9,8 @@ import warnings
 import numpy as np
 import z3
 
-from ..sym import (Abort, Stats, explore, nanflag, same, symarray, term)
+from ..sym import (Abort, Stats, explore, infsign, nanflag, same, symarray,
+                   term)
 from ..util import (arr_from_witness, enum_valuations, mask_from_witness,
                     ref_detect, snapshot, unchanged, wval)
 
@@ -28,7 +29,7 @@ META = dict(
             '4 and 8, scalar and 2-D symbolic threshold; thorough: adds 3x4 '
             'and 4x4 (npixels symbolic inside _detect_sources), 3x3 with <=2 '
             'masked pixels'),
-    assumptions=['floats modelled as NaN-extended reals; +-inf not modelled',
+    assumptions=['floats modelled as NaN-extended reals; +-inf modelled (sign flag, comparisons only) in the cases marked inf',
                  'threshold values are finite',
                  'scipy.ndimage.label/find_objects run natively on the '
                  'concrete boolean pattern of each path'],
@@ -65,6 +66,8 @@ def _harness(case):
     from photutils.segmentation.detect import _detect_sources
     from photutils.segmentation.utils import _make_binary_structure
     from photutils.utils.exceptions import NoDetectionsWarning
+    from .. import facade
+    facade.install()
     H, W = case['shape']
     conn = case['conn']
     twin = case.get('twin')
@@ -72,7 +75,8 @@ def _harness(case):
     counters = dict(nontrivial=0)
 
     def fn(ctx):
-        data = symarray(ctx, 'd', (H, W), nan=case.get('nan', True))
+        data = symarray(ctx, 'd', (H, W), nan=case.get('nan', True),
+                        inf=case.get('inf', False))
         if case['thr'] == 'scalar':
             thr = ctx.real('t')
             tt = [[thr.e] * W for _ in range(H)]
@@ -125,6 +129,8 @@ def _harness(case):
                 d = data[y, x]
                 above = (term(d) >= tt[y][x]) if twin == 'ge' else (
                     term(d) > tt[y][x])
+                sg = infsign(d)
+                above = z3.If(sg == 0, above, sg > 0)
                 c = z3.And(z3.Not(nanflag(d)), above)
                 if mbits and twin != 'nomask':
                     c = z3.And(c, z3.Not(mbits[y * W + x]))
@@ -281,7 +287,7 @@ def cases(tier, seed):
         for thr in ('scalar', '2d'):
             add((1, 1), conn, thr, 'all', (1, 2))
             add((1, 3), conn, thr, 'all', (1, 4))
-            add((2, 2), conn, thr, 'all', (1, 5))
+            add((2, 2), conn, thr, 'all', (1, 5), inf=True)
             add((2, 3), conn, thr, 'upto1', (1, 3))
             add((2, 3), conn, thr, 'upto1', (4, 7))
         for n in ((1, 1), (2, 2), (3, 4), (5, 10)):
@@ -360,7 +366,7 @@ def replay(f):
                                   mask=mask)
     warned = any(issubclass(x.category, NoDetectionsWarning) for x in wl)
     with np.errstate(invalid='ignore'):
-        S = (d > t) & np.isfinite(d)
+        S = (d > t) & ~np.isnan(d)
     if mask is not None:
         S &= ~mask
     exp = ref_detect(S, npix, p['conn'])
